@@ -385,6 +385,7 @@ pub fn run(tier: Tier) -> i32 {
         .fold(Census::new, |mut cen, d| {
             // uncompressed keys where the context permits them (the plan's placeholders carry the key form)
             let forms: &[KeyForm] = match d {
+                D::Sh(crate::ast::T::Multi(..)) | D::Sh(crate::ast::T::SortedMulti(..)) | D::Bare(crate::ast::T::SortedMulti(..)) => &[KeyForm::Compressed, KeyForm::Uncompressed, KeyForm::Mixed, KeyForm::MixedAlt],
                 D::Sh(t) if t.size() <= 4 => &[KeyForm::Compressed, KeyForm::Uncompressed],
                 D::Bare(_) | D::Pkh(_) => &[KeyForm::Compressed, KeyForm::Uncompressed],
                 _ => &[KeyForm::Compressed],
